@@ -44,7 +44,7 @@ type tOpt struct {
 	LazyQueue int      // MaxConcurrentQueryWhileDialing (0: default)
 	CtxMode   []int    // per caller: 0 background, 1 timeout 3s, 2 cancelled by a concurrent thread
 	Srv       srvOpt
-	DialMenu  []int // allowed dial behaviours: 0 ok, 1 error, 2 hang until its context ends
+	DialMenu  []int // allowed dial behaviours: 0 ok, 1 error, 2 hang until its context ends, 3 hang ignoring its context (until the harness finishes), 4 ok but the peer has already closed
 	Closer    bool  // a concurrent thread calls Close on the transport / connection
 	StartQid  uint16
 	SeedQueue int // pre-occupied wire IDs following StartQid (forces the skip loop)
@@ -381,6 +381,16 @@ func (s *tsys) dialNet(ctx context.Context) (NetConn, error) {
 		s.dialLog = append(s.dialLog, "hang")
 		vs.Recv(ctx.Done())
 		return nil, context.Cause(ctx)
+	case 3:
+		s.dialLog = append(s.dialLog, "stuck")
+		vs.Block("dial.stuck", s.key(), func() bool { return s.finished })
+		return nil, errDial
+	case 4:
+		s.dialLog = append(s.dialLog, "ok-peer-closed")
+		cn := s.newConn()
+		cn.closedBySrv = true
+		cn.b.ShutdownPeer()
+		return cn.a, nil
 	}
 	s.dialLog = append(s.dialLog, "ok")
 	return s.newConn().a, nil
